@@ -1,9 +1,9 @@
 package main
 
 import (
-	"go/token"
 	"fmt"
 	"go/constant"
+	"go/token"
 	"go/types"
 	"strings"
 
@@ -486,7 +486,6 @@ func singleOwner(c *Check, t *Tracker) {
 	c.Floor("containers examined for session objects", 5, n)
 }
 
-
 // releaseOnlyOnEnd: every removal from the sessions map made while
 // delivering a login or an event requires evidence of the session's
 // credential-disposal record (cleanup sweeps are C16).
@@ -512,7 +511,6 @@ func releaseOnlyOnEnd(c *Check, t *Tracker) {
 	}
 	c.Floor("session removals in deliveries", 2, n)
 }
-
 
 // typeMentions: tp contains the named type nt (by value, pointer, element).
 func typeMentions(tp types.Type, nt *types.Named, depth int) bool {
@@ -667,7 +665,6 @@ func transientCarrierD(p *Prog, nt *types.Named, depth int) (bool, string) {
 	return true, "never stored in a field, variable, map, channel or interface"
 }
 
-
 // finderKeyResult: u is result #i of a repository function that stores, in a
 // scan callback, the visited entry's value into the variable returned as #i
 // and, in the same block, the visited entry's key into the variable returned
@@ -736,7 +733,6 @@ func finderKeyResult(p *Prog, u *Org) int {
 	}
 	return -1
 }
-
 
 // scansWholeQueue: the predicate compares the type of every element of the
 // receiver's hold queue: the compared element is the value of a range over
@@ -809,7 +805,6 @@ func (t *Tracker) scansWholeQueue(fn *ssa.Function) (bool, string) {
 	}
 	return true, ""
 }
-
 
 // trueOnAnyCredDisp: the predicate answers true for *every* held
 // credential-disposal record: on the way to "true" the record is tested for
